@@ -176,10 +176,17 @@ fn drive(which: &str, c: &Case, runs: &mut [Run<'_>], rng: &mut Lcg, stop_after:
         if stop_after == Some(releases) { return Ok(()); }
         let live: Vec<usize> = (0..runs.len()).filter(|&k| runs[k].fut.is_some() && !runs[k].st.running().is_empty()).collect();
         if live.is_empty() { return Ok(()); } // reported by check_quiescent when the oracle is on
-        let k = live[rng.below(live.len() as u64) as usize];
-        let m = runs[k].st.running().len();
-        runs[k].st.release(rng.below(m as u64) as usize);
-        releases += 1;
+        // one to three running functions return before the call is polled again (several completions per poll)
+        let burst = 1 + rng.below(3) as usize;
+        for _ in 0..burst {
+            let live: Vec<usize> = (0..runs.len()).filter(|&k| runs[k].fut.is_some() && !runs[k].st.running().is_empty()).collect();
+            if live.is_empty() { break; }
+            let k = live[rng.below(live.len() as u64) as usize];
+            let m = runs[k].st.running().len();
+            runs[k].st.release(rng.below(m as u64) as usize);
+            releases += 1;
+            if stop_after == Some(releases) { break; }
+        }
         if releases > 10_000 { return Err(format!("C04: no end after 10000 completions ({})", c.desc)); }
     }
     for r in runs.iter() { check_trace(which, c, &r.edges, &r.st.trace.borrow(), true, &r.label)?; }
@@ -261,6 +268,8 @@ fn main() {
         Case { n: 4, accs: plain(4), edges: vec![(1, 2), (1, 3)], desc: "roots a(0), b(1); b -> c(2), b -> d(3)".into() },
         Case { n: 3, accs: plain(3), edges: vec![(0, 2), (1, 2)], desc: "a(0) -> c(2) <- b(1)".into() },
         Case { n: 5, accs: plain(5), edges: vec![(0, 1), (0, 2), (1, 3), (2, 3)], desc: "diamond a->b,c->d plus isolated e".into() },
+        Case { n: 6, accs: plain(6), edges: vec![(0, 2), (0, 3), (1, 4), (1, 5)], desc: "two roots with two successors each".into() },
+        Case { n: 13, accs: plain(13), edges: vec![(0, 1), (0, 2), (0, 3), (1, 4), (1, 5), (1, 6), (2, 7), (2, 8), (2, 9), (3, 10), (3, 11), (3, 12)], desc: "two-level fan-out: root, 3 children, 3 leaves each".into() },
     ];
     for round in 0..300 {
         let n = 1 + rng.below(6) as usize;
